@@ -197,6 +197,9 @@ soups += ["(" * 300 + "1" + ")" * 300, "1" + " + 1" * 500, "- " * 400 + "1"]
 HUGE = ["1e400", "-1e400", "1e1000000000", "99999999999", "-99999999999", "1e-1000000000"]
 BIN = ["round", "e", "^", "*", "/", "mod", "div", "+", "-", "=", "<", "and", "or"]
 soups += [f"{a} {op} {b}" for op in BIN for a in HUGE + ["1", "2.5"] for b in HUGE + ["1", "2.5"]]
+# the e operator with integer operands at and beyond its exact range (+-400), every kind of mantissa
+soups += [f"{a}{sp}e{sp}{b}" for sp in ("", " ") for a in ("0", "10", "7", "1000", "(5-5)", "-0", "2.5")
+          for b in ("-400", "-401", "-999999999999999999", "400", "401", "999999999999999999", "-1e18", "(0-10^18)")]
 for s in soups:
     try:
         r = call_pf(ctx, "#expr", (s,))
